@@ -21,11 +21,15 @@ pub enum Op {
     Accrue { b: u16 },
     Collect { b: u16 },
     WithdrawFees { b: u16, amt: u64, ins: bool },
-    Bankrupt { u: u16, b: u16, signer: u8 },
+    /// crash: first crash the price of all the account's collateral to the minimum
+    Bankrupt { u: u16, b: u16, signer: u8, crash: bool },
     CloseBalance { u: u16, b: u16 },
     /// multiply the bank's price by num/1000, set conf to conf_bps of price
     Price { b: u16, num: u16, conf_bps: u16 },
     Wait { secs: u32 },
+    /// move the price of an indebted user's main collateral so that its maintenance health becomes
+    /// -(depth/1000) x liabilities (mode 0), or crash all its collateral to the minimum price (mode 1)
+    Distress { le: u16, mode: u8, depth: u16 },
     /// receivership bracket: start, withdraw(wb,wamt), repay(rb,ramt), end
     Receivership { lq: u16, le: u16, wb: u16, wamt: u64, rb: u16, ramt: u64, rel: u8 },
     /// flash-loan bracket: start, borrow(b,amt), [repay_all], end
@@ -56,6 +60,7 @@ impl Op {
             Op::CloseBalance { .. } => "close_balance",
             Op::Price { .. } => "price",
             Op::Wait { .. } => "wait",
+            Op::Distress { .. } => "distress",
             Op::Receivership { .. } => "receivership",
             Op::Flash { .. } => "flashloan",
             Op::Configure { .. } => "configure",
@@ -85,6 +90,7 @@ pub struct Step {
     /// user token account that pays/receives (for value-flow checks) with pre/post balances
     pub user_token: Option<(Pubkey, u64, u64)>,
     pub skipped: bool,
+    pub skip_why: &'static str,
     pub now: i64,
 }
 
@@ -128,10 +134,11 @@ pub fn op_strategy() -> impl Strategy<Value = Op> {
         3 => i().prop_map(|b| Op::Accrue { b }),
         3 => i().prop_map(|b| Op::Collect { b }),
         2 => (i(), amount_abs_strategy(), any::<bool>()).prop_map(|(b, amt, ins)| Op::WithdrawFees { b, amt, ins }),
-        4 => (i(), i(), 0u8..4).prop_map(|(u, b, signer)| Op::Bankrupt { u, b, signer }),
+        4 => (i(), i(), 0u8..4, prop::bool::weighted(0.6)).prop_map(|(u, b, signer, crash)| Op::Bankrupt { u, b, signer, crash }),
         2 => (i(), i()).prop_map(|(u, b)| Op::CloseBalance { u, b }),
         7 => (i(), prop_oneof![1 => Just(0u16), 3 => 1u16..500, 3 => 500u16..1000, 2 => 1000u16..3000, 1 => Just(1000u16)], prop_oneof![3 => Just(0u16), 2 => 0u16..100, 1 => 100u16..2000]).prop_map(|(b, num, conf_bps)| Op::Price { b, num, conf_bps }),
         9 => prop_oneof![2 => Just(0u32), 3 => 1u32..120, 3 => 120u32..100_000, 2 => 100_000u32..40_000_000, 1 => 40_000_000u32..160_000_000].prop_map(|secs| Op::Wait { secs }),
+        5 => (i(), prop_oneof![4 => Just(0u8), 1 => Just(1u8)], prop_oneof![3 => 1u16..30, 2 => 30u16..300, 1 => 300u16..900]).prop_map(|(le, mode, depth)| Op::Distress { le, mode, depth }),
         4 => (i(), i(), i(), amt_rel(), i(), amount_abs_strategy()).prop_map(|(lq, le, wb, (wamt, rel), rb, ramt)| Op::Receivership { lq, le, wb, wamt, rb, ramt, rel }),
         3 => (i(), i(), amt_rel(), any::<bool>()).prop_map(|(u, b, (amt, rel), repay)| Op::Flash { u, b, amt, rel, repay }),
         3 => (i(), 0u8..4, prop_oneof![Just(0u64), Just(1u64), Just(u64::MAX), amount_abs_strategy()]).prop_map(|(b, kind, val)| Op::Configure { b, kind, val }),
@@ -253,11 +260,12 @@ pub fn world_strategy(cfg: &GenCfg) -> impl Strategy<Value = WorldSpec> {
 /// A short generated prefix that sets up a lender and a borrower (still ordinary ops, so the
 /// whole sequence shrinks as one value).
 pub fn prefix_strategy() -> impl Strategy<Value = Vec<Op>> {
-    (any::<u16>(), any::<u16>(), 1u64..=65536, 1u64..=65536, 1u64..30000, prop_oneof![Just(0u32), 1u32..100_000, 100_000u32..40_000_000]).prop_map(|(b0, b1, f0, f1, fb, secs)| {
+    (any::<u16>(), 1u64..=65536, 1u64..=65536, 20000u64..=65536, prop_oneof![Just(0u32), 1u32..100_000, 100_000u32..40_000_000]).prop_map(|(b0, f0, f1, fb, secs)| {
+        let b1 = b0.wrapping_add(32768);
         vec![
             Op::Deposit { u: 0, b: b0, amt: f0, rel: 1, up: 0 },
-            Op::Deposit { u: 40000, b: b1, amt: f1, rel: 1, up: 0 },
-            Op::Borrow { u: 40000, b: b0, amt: fb, rel: 1 },
+            Op::Deposit { u: 40001, b: b1, amt: f1, rel: 1, up: 0 },
+            Op::Borrow { u: 40001, b: b0, amt: fb, rel: 1 },
             Op::Wait { secs },
         ]
     })
@@ -301,6 +309,30 @@ impl Runner {
             }
         }
         (0, 0)
+    }
+
+    /// largest amount of bank `bi` the account could borrow according to the reference model
+    /// (initial health / (high price x liability weight)), capped by the vault liquidity
+    pub fn borrow_power(&self, macct: &Pubkey, bi: usize) -> u64 {
+        use crate::model::{health, oracle_view, PriceKind, Req};
+        use crate::num::*;
+        use num_traits::{Signed, ToPrimitive};
+        let liq = self.w.tok(&self.w.banks[bi].lv);
+        let Some(a) = read_macct(&self.w.vm, macct) else { return liq };
+        let h = health(&self.w.vm, &a, Req::Initial, self.w.vm.now());
+        let Some(hh) = h.health() else { return liq };
+        if !hh.lo.is_positive() {
+            return 0;
+        }
+        let bank = self.w.bank(bi);
+        let ov = oracle_view(&self.w.vm, &bank, self.w.vm.now());
+        let Some(p) = ov.high(PriceKind::Ema) else { return liq };
+        let w = q_w(bank.config.liability_weight_init);
+        if !p.hi.is_positive() {
+            return liq;
+        }
+        let amt = &hh.lo / (&p.hi * w) * pow10(bank.mint_decimals as u32);
+        q_floor(&amt).to_u64().unwrap_or(u64::MAX).min(liq)
     }
 
     /// users whose primary account has a position satisfying `f`
@@ -350,6 +382,7 @@ impl Runner {
             ixs: vec![],
             user_token: None,
             skipped: false,
+            skip_why: "",
             now: self.w.vm.now(),
         };
         self.steps += 1;
@@ -387,10 +420,19 @@ impl Runner {
                 st.ixs = vec![self.w.ix_withdraw(usr.accts[0], usr.auth, bi, usr.tokens[bi], a, if *all { Some(true) } else { None })];
             }
             Op::Borrow { u, b, amt, rel } => {
-                let (ui, bi) = (idx(*u, nu), idx(*b, nb));
+                let ui = idx(*u, nu);
                 let usr = self.w.users[ui].clone();
-                let liq = self.w.tok(&self.w.banks[bi].lv);
-                let a = apply_rel(*amt, *rel, liq);
+                let mut bi = idx(*b, nb);
+                if b % 5 != 0 {
+                    // prefer a bank with liquidity in which this account has no deposit
+                    let held: Vec<Pubkey> = self.snap.accts.get(&usr.accts[0]).map(|s| s.positions.iter().filter(|p| p.a_bits > 0).map(|p| p.bank).collect()).unwrap_or_default();
+                    let c: Vec<usize> = (0..nb).filter(|i| !held.contains(&self.w.banks[*i].key) && self.w.tok(&self.w.banks[*i].lv) > 0).collect();
+                    if !c.is_empty() {
+                        bi = c[idx(*b, c.len())];
+                    }
+                }
+                let reference = if *rel == 0 { 0 } else if u % 5 == 0 { self.w.tok(&self.w.banks[bi].lv) } else { self.borrow_power(&usr.accts[0], bi) };
+                let a = apply_rel(*amt, *rel, reference);
                 st.user = Some(ui);
                 st.macct = Some(usr.accts[0]);
                 st.bank = Some(bi);
@@ -468,9 +510,19 @@ impl Runner {
                 st.amount = a;
                 st.ixs = vec![if *ins { self.w.ix_withdraw_insurance(bi, self.w.roles.admin, dst, a) } else { self.w.ix_withdraw_fees(bi, self.w.roles.admin, dst, a) }];
             }
-            Op::Bankrupt { u, b, signer } => {
+            Op::Bankrupt { u, b, signer, crash } => {
                 let ui = self.pick_user(*u, |p| p.l_bits > 0);
                 let macct = self.w.users[ui].accts[0];
+                if *crash {
+                    let assets: Vec<usize> = self.snap.accts.get(&macct).map(|s| s.positions.iter().filter(|p| p.a_bits > 0 && p.l_bits == 0).filter_map(|p| self.w.bank_index(&p.bank)).collect()).unwrap_or_default();
+                    let has_liab = self.snap.accts.get(&macct).map(|s| s.positions.iter().any(|p| p.l_bits > 0)).unwrap_or(false);
+                    if has_liab {
+                        for bi in assets {
+                            let _ = self.w.set_price(bi, 1, 0, 1, 0);
+                        }
+                        self.snap = store_snap(&self.w.vm);
+                    }
+                }
                 // prefer a bank where the account owes
                 let liabs: Vec<usize> = self
                     .snap
@@ -516,6 +568,52 @@ impl Runner {
                 st.ok = true;
                 st.now = self.w.vm.now();
                 self.snap.now = st.now;
+                return st;
+            }
+            Op::Distress { le, mode, depth } => {
+                use crate::model::{health, Req};
+                use crate::num::*;
+                use num_traits::{Signed, ToPrimitive, Zero};
+                let lei = self.pick_user(*le, |p| p.l_bits >= (1i128 << 48));
+                let macct = self.w.users[lei].accts[0];
+                st.user = Some(lei);
+                st.macct = Some(macct);
+                let Some(a) = read_macct(&self.w.vm, &macct) else {
+                    st.skipped = true;
+                    st.skip_why = "no-account";
+                    return st;
+                };
+                let h = health(&self.w.vm, &a, Req::Maintenance, self.w.vm.now());
+                let assets: Vec<(usize, Q)> = h.positions.iter().filter(|p| !p.is_liab && p.price.is_some()).filter_map(|p| self.w.bank_index(&p.bank).map(|bi| (bi, p.value.lo.clone()))).collect();
+                if assets.is_empty() || !h.defined() || h.n_liabs == 0 {
+                    st.skip_why = if h.n_liabs == 0 { "no-liabs" } else if !h.defined() { "undefined" } else { "no-assets" };
+                    st.skipped = true;
+                    return st;
+                }
+                if *mode == 1 {
+                    for (bi, _) in &assets {
+                        let _ = self.w.set_price(*bi, 1, 0, 1, 0);
+                    }
+                } else {
+                    let (bj, vj) = assets.iter().max_by(|x, y| x.1.cmp(&y.1)).unwrap().clone();
+                    let total_a: Q = assets.iter().fold(q_zero(), |acc, x| acc + &x.1);
+                    let l = h.liabs.as_ref().unwrap().hi.clone();
+                    let target = -(q_ratio(*depth as u64, 1000u64) * &l);
+                    let want_vj = &l + &target - (&total_a - &vj);
+                    if vj.is_zero() || !want_vj.is_positive() {
+                        st.skip_why = "target-unreachable";
+                        st.skipped = true;
+                        return st;
+                    }
+                    let f = want_vj / &vj;
+                    let o = self.w.banks[bj].spec.oracle.clone();
+                    let nm = q_floor(&(q_int(o.mant) * &f)).to_i64().unwrap_or(i64::MAX / 4).clamp(1, i64::MAX / 4);
+                    let conf = ((o.conf as u128).saturating_mul(nm as u128) / (o.mant.max(1) as u128)) as u64;
+                    let _ = self.w.set_price(bj, nm, conf, nm, conf);
+                    st.bank = Some(bj);
+                }
+                st.ok = true;
+                self.snap = store_snap(&self.w.vm);
                 return st;
             }
             Op::Receivership { lq, le, wb, wamt, rb, ramt, rel } => {
